@@ -288,6 +288,15 @@ class ScriptedApp:
             if sc.get("has_close", True):
                 return ClosableIter(self, key, iter(()))
             return []
+        if kind == "write+list":
+            # the first chunk through write(), the rest as a plain one-element list (it has a len() of 1)
+            w = do_sr()
+            w(chunks[0] if chunks else b"")
+            k.log("app", key[0], key[1], "wrote", 0)
+            rec["chunks_done"] = 1
+            rec["returned"] = True
+            self._finish(rec)
+            return [b"".join(chunks[1:])]
         if kind == "write+file":
             w = do_sr()
             w(chunks[0] if chunks else b"")
